@@ -214,6 +214,25 @@ def p21_short_params(base, schema, pop, maxlen=2):
     return out
 
 
+def p21_token_cuts(base, limit=700):
+    """Deterministic: the file cut right after EVERY token of the DATA section (end of file in every parser state), and a NUL /
+    high byte placed right after every reference, string and closing parenthesis."""
+    out = []
+    try:
+        toks = ref_p21.tokenize(base, keep_comments=True)
+    except ref_p21.P21Error:
+        return out
+    dstart = base.find('DATA;')
+    data = [t for t in toks if t[2] > dstart]
+    step = max(1, len(data) // limit)
+    for t in data[::step]:
+        end = t[2] + len(t[1])
+        out.append((_b(base[:end]), 'cut after token', _tok_class(t[0], t[1])))
+        if t[0] in ('ref', 'str') or t[1] == ')':
+            out.append((_b(base[:end]) + b'\x00' + _b(base[end:]), 'NUL after token', _tok_class(t[0], t[1])))
+    return out
+
+
 def _faulty_aggregate_families(schema, pop, f):
     """One aggregate attribute of the population filled with n elements each of which is recoverably wrong for its element type
     (integers without a decimal point in an aggregate of REAL, strings in an aggregate of INTEGER ...): per-element error handling
